@@ -39,7 +39,9 @@ CommitExpected(c) == "equal"
 
 Segments == {"canonical", "reordered", "whitespace", "suffixDataAltered", "deltaAltered", "memberAdded", "typeMemberIncluded", "badBase64", "paddedBase64",
              "trailingBits", "byteChanged", "empty", "notJson"}
-LongCases == [kind : {"longform"}, alg : Algs, segment : Segments, suffix : {"match", "other"}]
+\* the DID's suffix: the hash of the embedded suffix data, another hash, or a near miss of the right one (leading
+\* characters dropped, trailing characters dropped, characters added)
+LongCases == [kind : {"longform"}, alg : Algs, segment : Segments, suffix : {"match", "other", "tail", "head", "extended"}]
 LongExpected(c) == IF c.segment = "canonical" /\ c.suffix = "match" THEN "resolves"
                    ELSE IF c.segment = "typeMemberIncluded" /\ c.suffix = "match" THEN "either"   \* JCS of {delta, suffixData, type: create}: same value plus the implied type
                    ELSE "rejected"
